@@ -107,8 +107,11 @@ class Result:
         self.completed = False    # END seen
         self.deliveries = 0
         self.choice = 0           # matches that had to choose among >=2 candidates, or where a filter skipped an older one
-        self.after_timeout = False   # a wait_for()/get(timeout)/put(timeout) on a message-queue activity timed out earlier in the run
-        self.after_matched_cancel = False   # a message-queue request was cancelled (and its handle released) after it had been matched
+        # C09 contexts, named after the open known findings whose trigger was seen earlier in the process:
+        self.after_timeout = False   # a get(timeout) timed out, or a wait_for() timed out on a handle that lives on: the kernel keeps
+        #                              dangling pointers / a stale simcall registration; every later symptom is keyed ':after-timeout'
+        self.after_matched_cancel = False   # a request was cancelled (and its handle released) after it had been matched: only a later
+        self.after_cancelled_wait_timeout = False   # crash is attributed; same for a wait_for() timeout followed by cancel()
         self.toggled = False
         self.after_blocking_failure = False   # a one-simcall blocking Comm (put_init()->wait(), Comm::send/recv) ended with an exception
 
@@ -158,7 +161,7 @@ def replay(out, prop, ended=True, tainted=False):
         return "plain"
 
     def qcontext():
-        return "after-timeout" if res.after_timeout else "after-matched-cancel" if res.after_matched_cancel else "plain"
+        return "after-timeout" if res.after_timeout else "plain"
 
     def tail(ln, n=14):
         lines = out.splitlines()
@@ -434,8 +437,11 @@ def replay(out, prop, ended=True, tainted=False):
             elif st == "timeout":
                 if hd is not None:
                     hd.waiting = False
-                    if hd.box.startswith("q"):
-                        res.after_timeout = True      # wait_for() on a message-queue activity timed out
+                    if hd.box.startswith("q"):        # wait_for() on a message-queue activity timed out
+                        if op == "waitk":
+                            res.after_timeout = True
+                        else:
+                            res.after_cancelled_wait_timeout = True
                 res.count("wait_timeouts")
             elif st == "0":
                 hd.waiting = False
@@ -464,5 +470,7 @@ def replay(out, prop, ended=True, tainted=False):
     res.count("sends_still_pending_at_end", pend)
     res.toggled = any(b.toggled for b in boxes.values())
     res.qcontext = qcontext()
+    res.qcrash_context = ("after-timeout" if res.after_timeout else "after-matched-cancel" if res.after_matched_cancel else
+                          "after-cancelled-wait-timeout" if res.after_cancelled_wait_timeout else "plain")
     res.mcontext = "after-failed-blocking-comm" if res.after_blocking_failure else "permanent" if res.toggled else "plain"
     return res
